@@ -1,7 +1,9 @@
 (* C08 - JsonData is plain JSON and converts back to the same table.
    Only statements here; every proof is one [exact] of a lemma from Proofs/.
    jleaf has exactly the JSON leaf kinds (null, bool, int, float, str); [pure_leaf] excludes NaN. *)
-From PdV Require Import Json JsonProofs.
+From Coq Require Import List Arith.
+From PdV Require Import Json JsonProofs ParseTable RoundTrip JsonRoundTrip.
+Import ListNotations.
 
 (* table_to_json_data: name, destinations, columns in table order each with its own unit, all
    leaves JSON values, none NaN (missing numbers and missing timestamps travel as null) *)
@@ -32,3 +34,39 @@ Theorem C08_null_iff_missing :
     leaf_of_value render_dt v = JNull <-> v = VNum nan_tok \/ v = VNaT \/ exists k, v = VCustom k.
 Proof. exact leaf_null_iff. Qed.
 Print Assumptions C08_null_iff_missing.
+
+(* One python scalar of a column, sent through to_json_serializable and back through the cell
+   json.loads yields, parses under the column's unit to the value it stood for: text and onoff
+   verbatim, numbers by value (NaN travels as null and stays missing, integers through their float),
+   timestamps through str() / to_datetime (dt_ok: H_dt_roundtrip).  A missing timestamp is not
+   admissible (wf_scalar): it travels as null, which is no legal datetime cell - the exception the
+   statement makes. *)
+Theorem C08_scalar_roundtrip :
+  forall (parse_float : str -> option ftok) (parse_dt : str -> dres)
+         (float_repr : ftok -> str) (int_repr : Z -> str) (int_float : Z -> ftok) u c,
+    wf_scalar parse_dt int_float u c ->
+    cell_parser parse_float parse_dt u (cell_of_leaf float_repr int_repr int_float (leaf c)) = CVal (scalar_value c).
+Proof. exact scalar_roundtrip. Qed.
+Print Assumptions C08_scalar_roundtrip.
+
+(* json_data_to_table (table_to_json_data t) = t: for every table with at least one column and any
+   number of rows (zero included) whose scalars are admissible for their units, the JsonData exists
+   and the table rebuilt from it has t's name, destinations cell, column names, units and values. *)
+Theorem C08_json_roundtrip :
+  forall (parse_float : str -> option ftok) (parse_dt : str -> dres) (cfg : fixer_cfg)
+         (float_repr : ftok -> str) (int_repr : Z -> str) (int_float : Z -> ftok)
+         (name : str) (dests : list str) (cols : list (str * str * list cell)) (m : nat),
+    Forall (fun c => length (snd c) = m) cols -> cols <> [] ->
+    (forall j i, j < length cols -> i < m -> wf_scalar parse_dt int_float (junit_at cols j) (scal_at cols j i)) ->
+    Forall (fun c => Forall (fun x => leaf_of_scalar x <> None) (snd c)) cols ->
+    forall fx : fixer_st,
+    fx_fixes fx = 0 -> drop_last_star name = (name, false) ->
+    Forall (fun c : str * str * list cell => is_blank (fst (fst c)) = false) cols ->
+    map strip (map (fun c : str * str * list cell => fst (fst c)) cols) = map (fun c => fst (fst c)) cols ->
+    map strip (map (fun c : str * str * list cell => snd (fst c)) cols) = map (fun c => snd (fst c)) cols ->
+    NoDup (map (fun c : str * str * list cell => fst (fst c)) cols) ->
+    exists j, table_to_json name dests cols = Some j /\
+              parse_table parse_float parse_dt cfg (grid_of_json float_repr int_repr int_float j) fx
+              = Ok (json_read_back name dests cols fx).
+Proof. exact json_roundtrip. Qed.
+Print Assumptions C08_json_roundtrip.
